@@ -677,7 +677,8 @@ def _t2(ctx: Context) -> None:
         sites += 1
         opens = [(n, c) for n in dcfg.nodes for c in ctx.calls(n) if OPEN in ctx.callee_names(df, c)]
         rets = [n for n in dcfg.nodes if n.kind == "return"]
-        if len(opens) != 1 or len(rets) != 1 or opens[0][0] is not rets[0] or rets[0].exprs[0] is not opens[0][1]:
+        rdef = ctx.deref(dcfg, rets[0], rets[0].exprs[0]) if len(rets) == 1 and rets[0].exprs else (None, None)
+        if len(opens) != 1 or len(rets) != 1 or opens[0][0] is not rdef[0] or rdef[1] is not opens[0][1]:
             ck.unknown("C18.T2", f"decrypt: expected a single `return self.key.open(...)`, found {len(opens)} open calls / {len(rets)} returns", df.loc())
         else:
             n, c = opens[0]
@@ -1003,11 +1004,12 @@ def _k1_parser(ctx: Context) -> int:
     f = ctx.func(PARSER)
     cfg = ctx.cfg(PARSER)
     fk = ctx.fkey(f)
-    rets = [n for n in cfg.nodes if n.kind == "return" and n.exprs and isinstance(n.exprs[0], ast.Call)]
+    # the returned constructor call, looked up through a temporary (`obj = Cls(...); return obj`)
+    rets = [d for d in (ctx.deref(cfg, n, n.exprs[0]) for n in cfg.nodes if n.kind == "return" and n.exprs) if isinstance(d[1], ast.Call)]
     if len(rets) != 1 or len([n for n in cfg.nodes if n.kind == "return"]) != 1:
         ck.unknown("C18.K1", "notification parser: expected one constructor return", f.loc())
         return 0
-    rn = rets[0]
+    rn, rcall = rets[0]
     loc = ctx.loc(f, rn)
     pas, bases = _type_gate(ctx, cfg)
     ctx.must_pass("C18.K1", cfg, rn, f"type byte == {SPEC.NOTIFICATION_TYPE:#04x} [equal outcome]", pas,
@@ -1020,7 +1022,7 @@ def _k1_parser(ctx: Context) -> int:
     okm = (M[0] == "call" and M[1][0] == "attr" and M[1][2] == "get" and M[1][1][0] == "param" and M[2][:1] == (("const", SPEC.APPLE_COMPANY_ID),))
     _judge(ck, "C18.K1", okm, [M], f"notification parser: the bytes are the manufacturer data of company id {SPEC.APPLE_COMPANY_ID}",
            f"{fk}:company-id", f"notification parser: the parsed buffer is {show(M, 100)}", loc)
-    call = rn.exprs[0]
+    call = rcall
     kw = {k.arg: strip_sites(T.of(cfg, rn, k.value)) for k in call.keywords if k.arg}
     fields = [x.target.id for x in f.cls.node.body if isinstance(x, ast.AnnAssign) and isinstance(x.target, ast.Name)] if f.cls else []
     for i, a in enumerate(call.args):
